@@ -59,6 +59,11 @@ type target struct {
 	Ghosts []string // "(name : Type)"
 	// Abstract: parameters/fields that have no translated representation (dropped from the signature)
 	Abstract []string
+	// Ignore: statements (as printed) that have no counterpart in the sequential translation:
+	// taking and releasing the object's own mutex
+	Ignore []string
+	// OutParams: parameters whose final value is returned with the results (a buffer the callee fills)
+	OutParams []string
 	// Types: Go type (as printed by go/types) → Lean type, for abstract values given a representation
 	// here (e.g. time.Time as its nanoseconds since the epoch); part of the trusted base
 	Types map[string]string
@@ -92,6 +97,33 @@ var targets = []target{
 		Ghosts: []string{"(closeCalls : Int)"},
 		Externs: map[string]extern{
 			"l.R.Close": {Lean: "R_CloseErr", Type: "Kit.GoSem.Err", Params: []string{"(R_CloseErr : Kit.GoSem.Err)"}, Effects: []string{"closeCalls := closeCalls + 1"}},
+		}},
+	{Group: "C16", Dir: "streams", Func: "TeeReadCloser.Read", Abstract: []string{"t.r", "t.w", "t.lock"},
+		Ignore:    []string{"t.lock.Lock()", "defer t.lock.Unlock()"},
+		OutParams: []string{"p"},
+		Ghosts:    []string{"(wlog : List (List UInt8))"},
+		Rewrites: map[string][2]string{"t.r == nil": {"t_rnil", "Bool"}, "t.w == nil": {"t_wnil", "Bool"},
+			// the source's errors are sentinel values (not wrapped), as in the model
+			"errors.Is(err, io.EOF)": {"(err == (some \"io.EOF\" : Kit.GoSem.Err))", "Bool"}},
+		Externs: map[string]extern{
+			// the source fills the buffer with the data it returns: R_Data k is the data, R_Read k = (n, err)
+			"t.r.Read": {Lean: "(R_Read (Kit.GoSem.lenI %1))", Type: "Int × Kit.GoSem.Err",
+				Params:  []string{"(t_rnil : Bool)", "(t_wnil : Bool)", "(R_Read : Int → Int × Kit.GoSem.Err)", "(R_Data : Int → List UInt8)", "(W_Write : List UInt8 → Int × Kit.GoSem.Err)"},
+				Effects: []string{"p := Kit.GoSem.fill p (R_Data (Kit.GoSem.lenI p))"}},
+			// the writer is handed exactly the argument; what it was handed is logged
+			"t.w.Write": {Lean: "(W_Write %1)", Type: "Int × Kit.GoSem.Err", Effects: []string{"wlog := wlog ++ [%1]"}},
+		}},
+	{Group: "C16", Dir: "streams", Func: "MultiReaderCloser.Read",
+		// a reader is an abstract object: its index in the caller's table of sources
+		Types: map[string]string{"[]io.Reader": "List Nat", "io.Reader": "Nat", "io.Closer": "Nat"},
+		Ghosts: []string{"(closeLog : List Nat)"},
+		Rewrites: map[string][2]string{
+			"errors.Is(err, http.ErrBodyReadAfterClose)": {"(err == (some \"http.ErrBodyReadAfterClose\" : Kit.GoSem.Err))", "Bool"},
+			"r.(io.Closer)": {"(r, R_IsCloser r)", "Nat × Bool"}},
+		Externs: map[string]extern{
+			// within one call every source is read at most once, so its Read is a function of (source, len(p))
+			"r.Read":   {Lean: "(R_Read %r (Kit.GoSem.lenI %1))", Type: "Int × Kit.GoSem.Err", Params: []string{"(R_Read : Nat → Int → Int × Kit.GoSem.Err)", "(R_IsCloser : Nat → Bool)"}},
+			"rc.Close": {Lean: "(none : Kit.GoSem.Err)", Type: "Kit.GoSem.Err", Effects: []string{"closeLog := closeLog ++ [%r]"}},
 		}},
 	{Group: "C03", Dir: "crypto/padding", Func: "UnpadPKCS7"},
 	{Group: "C07", Dir: "time", Func: "ParseISO8601Duration", Externs: map[string]extern{
@@ -155,6 +187,8 @@ type fnCtx struct {
 	tmp      int
 	known    map[string]*fnSig // translated functions of the same group (for calls)
 	mutatedFlat map[string]bool
+	lastRecv string   // receiver / arguments of the extern call translated last (for its effects)
+	lastArgs []string
 }
 
 type fnSig struct {
@@ -384,8 +418,13 @@ func (c *fnCtx) expr(e ast.Expr) exprOut {
 	case *ast.IndexExpr:
 		s := c.expr(v.X)
 		i := c.expr(v.Index)
-		if s.ty != tBytes || i.ty != tInt {
+		if !strings.HasPrefix(string(s.ty), "List ") || i.ty != tInt {
 			c.bad(e, "index of %s by %s", s.ty, i.ty)
+		}
+		if s.ty != tBytes {
+			p := append(append([]pre{}, s.pre...), i.pre...)
+			p = append(p, pre{guard: fmt.Sprintf("(decide (0 ≤ %s ∧ %s < Kit.GoSem.lenI %s))", i.s, i.s, s.s), msg: "index out of range: " + printed(c.fset, e)})
+			return exprOut{s: fmt.Sprintf("(Kit.GoSem.idxG %s %s)", s.s, i.s), ty: lty(strings.TrimPrefix(string(s.ty), "List ")), pre: p}
 		}
 		p := append(append([]pre{}, s.pre...), i.pre...)
 		p = append(p, pre{guard: fmt.Sprintf("(decide (0 ≤ %s ∧ %s < Kit.GoSem.lenI %s))", i.s, i.s, s.s), msg: "index out of range: " + printed(c.fset, e)})
@@ -395,7 +434,7 @@ func (c *fnCtx) expr(e ast.Expr) exprOut {
 			c.bad(e, "3-index slice")
 		}
 		s := c.expr(v.X)
-		if s.ty != tBytes {
+		if !strings.HasPrefix(string(s.ty), "List ") {
 			c.bad(e, "slice of %s", s.ty)
 		}
 		p := append([]pre{}, s.pre...)
@@ -411,7 +450,7 @@ func (c *fnCtx) expr(e ast.Expr) exprOut {
 			hi = h.s
 		}
 		p = append(p, pre{guard: fmt.Sprintf("(decide (0 ≤ %s ∧ %s ≤ %s ∧ %s ≤ Kit.GoSem.lenI %s))", lo, lo, hi, hi, s.s), msg: "slice bounds out of range: " + printed(c.fset, e)})
-		return exprOut{s: fmt.Sprintf("(Kit.GoSem.slice %s %s %s)", s.s, lo, hi), ty: tBytes, pre: p}
+		return exprOut{s: fmt.Sprintf("(Kit.GoSem.slice %s %s %s)", s.s, lo, hi), ty: s.ty, pre: p}
 	case *ast.CompositeLit:
 		// []byte{} only
 		if c.leanType(c.info.Types[e].Type, e) == tBytes && len(v.Elts) == 0 {
@@ -537,7 +576,7 @@ func (c *fnCtx) call(v *ast.CallExpr) exprOut {
 		case "len":
 			if _, isBuiltin := c.info.Uses[id].(*types.Builtin); isBuiltin {
 				x := c.expr(v.Args[0])
-				if x.ty != tBytes {
+				if !strings.HasPrefix(string(x.ty), "List ") {
 					c.bad(v, "len of %s", x.ty)
 				}
 				return exprOut{s: "(Kit.GoSem.lenI " + x.s + ")", ty: tInt, pre: x.pre}
@@ -626,7 +665,7 @@ func (c *fnCtx) emitPre(ps []pre, body string) string {
 	for i := len(ps) - 1; i >= 0; i-- {
 		p := ps[i]
 		if p.bindName != "" {
-			body = fmt.Sprintf("match %s with\n| .panic m => .panic m\n| .nofuel => .nofuel\n| .ok %s =>\n%s", p.bindRes, p.bindName, ind(body))
+			body = fmt.Sprintf("match %s with\n| .panic msg__ => .panic msg__\n| .nofuel => .nofuel\n| .ok %s =>\n%s", p.bindRes, p.bindName, ind(body))
 		} else {
 			body = fmt.Sprintf("if !%s then .panic %q else\n%s", p.guard, p.msg, body)
 		}
@@ -689,7 +728,7 @@ func (c *fnCtx) noteEffects(e ast.Expr, out map[string]lty) {
 			if ex, ok := c.t.Externs[printed(c.fset, sel)]; ok {
 				for _, ef := range ex.Effects {
 					nm := strings.TrimSpace(strings.SplitN(ef, ":=", 2)[0])
-					for _, g := range c.ghosts {
+					for _, g := range c.env {
 						if g.name == nm {
 							out[nm] = g.ty
 						}
@@ -814,7 +853,7 @@ func (c *fnCtx) assignOne(name string, ty lty, rhs exprOut, n ast.Node, body fun
 func (c *fnCtx) effects(ex extern, body string) string {
 	for i := len(ex.Effects) - 1; i >= 0; i-- {
 		parts := strings.SplitN(ex.Effects[i], ":=", 2)
-		body = fmt.Sprintf("let %s := %s\n%s", strings.TrimSpace(parts[0]), strings.TrimSpace(parts[1]), body)
+		body = fmt.Sprintf("let %s := %s\n%s", strings.TrimSpace(parts[0]), subst(strings.TrimSpace(parts[1]), c.lastRecv, c.lastArgs), body)
 	}
 	return body
 }
@@ -844,10 +883,16 @@ func (c *fnCtx) externValue(ex extern, call *ast.CallExpr) exprOut {
 			recv = n
 		}
 	}
+	c.lastRecv, c.lastArgs = recv, args
 	return exprOut{s: subst(ex.Lean, recv, args), ty: lty(ex.Type), pre: p}
 }
 
 func (c *fnCtx) stmt(s ast.Stmt, k conts) string {
+	for _, ig := range c.t.Ignore {
+		if printed(c.fset, s) == ig {
+			return k.next()
+		}
+	}
 	switch v := s.(type) {
 	case *ast.EmptyStmt:
 		return k.next()
@@ -1026,10 +1071,14 @@ func (c *fnCtx) assign(v *ast.AssignStmt, k conts) string {
 	// multi-value from one extern call
 	if len(v.Lhs) > 1 && len(v.Rhs) == 1 {
 		ex, call, ok := c.externOf(v.Rhs[0])
-		if !ok {
+		var val exprOut
+		if rw, isRw := c.t.Rewrites[printed(c.fset, v.Rhs[0])]; isRw {
+			val = exprOut{s: rw[0], ty: lty(rw[1])}
+		} else if !ok {
 			c.bad(v, "multi-value assignment from %s", printed(c.fset, v.Rhs[0]))
+		} else {
+			val = c.externValue(ex, call)
 		}
-		val := c.externValue(ex, call)
 		var pats []string
 		var decls []func()
 		for _, l := range v.Lhs {
@@ -1356,7 +1405,7 @@ func (c *fnCtx) forStmt(v *ast.ForStmt, k conts) string {
 			loopName, strings.Join(params, " "), c.resultTy, carriedTy, ind(ind(bodyS)))
 		c.loops = append(c.loops, def)
 		after := k.next()
-		return fmt.Sprintf("match %s fuel %s with\n| .panic m => .panic m\n| .nofuel => .nofuel\n| .ok (.ret r) => .ok r\n| .ok (.brk %s) =>\n%s",
+		return fmt.Sprintf("match %s fuel %s with\n| .panic msg__ => .panic msg__\n| .nofuel => .nofuel\n| .ok (.ret ret__) => .ok ret__\n| .ok (.brk %s) =>\n%s",
 			loopName, strings.Join(args, " "), carriedPat, ind(after))
 	})
 	c.env = c.env[:envLen]
@@ -1435,8 +1484,6 @@ func translate(t target, fset *token.FileSet, files []*ast.File, info *types.Inf
 	c.leanName = strings.ReplaceAll(t.Func, ".", "_")
 	c.used[c.leanName] = 1
 	c.used["fuel"] = 1
-	c.used["m"] = 1
-	c.used["r"] = 1
 	var params []variable
 	for _, ex := range sortedExterns(t.Externs) {
 		for _, p := range ex.Params {
@@ -1453,7 +1500,7 @@ func translate(t target, fset *token.FileSet, files []*ast.File, info *types.Inf
 		}
 	}
 	for _, g := range t.Ghosts {
-		parts := strings.SplitN(strings.Trim(g, "()"), ":", 2)
+		parts := strings.SplitN(strings.TrimSuffix(strings.TrimPrefix(g, "("), ")"), ":", 2)
 		gv := variable{strings.TrimSpace(parts[0]), lty(strings.TrimSpace(parts[1]))}
 		c.ghosts = append(c.ghosts, gv)
 		c.used[gv.name] = 1
@@ -1555,6 +1602,15 @@ func translate(t target, fset *token.FileSet, files []*ast.File, info *types.Inf
 	for _, v := range outFlat {
 		outTys = append(outTys, string(v.ty))
 	}
+	var outParams []variable
+	for _, op := range t.OutParams {
+		for _, pv := range params {
+			if pv.name == op {
+				outParams = append(outParams, pv)
+				outTys = append(outTys, string(pv.ty))
+			}
+		}
+	}
 	for _, g := range c.ghosts {
 		outTys = append(outTys, string(g.ty))
 	}
@@ -1565,6 +1621,9 @@ func translate(t target, fset *token.FileSet, files []*ast.File, info *types.Inf
 	c.retTuple = func(c *fnCtx, vals []string) string {
 		all := append([]string{}, vals...)
 		for _, v := range outFlat {
+			all = append(all, v.name)
+		}
+		for _, v := range outParams {
 			all = append(all, v.name)
 		}
 		for _, g := range c.ghosts {
@@ -1622,6 +1681,9 @@ func translate(t target, fset *token.FileSet, files []*ast.File, info *types.Inf
 }
 
 func (c *fnCtx) leanTypeSoft(t types.Type) lty {
+	if o, ok := c.t.Types[t.String()]; ok {
+		return lty(o)
+	}
 	switch u := t.Underlying().(type) {
 	case *types.Basic:
 		switch u.Kind() {
